@@ -1,35 +1,4 @@
-// C16: lock-based hash containers (Cuckoo / Striped sets and maps, value and intrusive flavours) are linearizable
-// across concurrent resizes. Tiny initial tables, probe sets and resize thresholds so that resizes interleave with
-// every operation; see fam_lockhash.h for the variants and the per-case parameters.
-#include "mapcommon_impl.h"
-#include "fam_lockhash.h"
-
-using namespace mh;
-
-namespace fam_lockhash {
-    Params decode_params( Case const& c, ContKind kind ) { return decode_params_c16( c, kind ); }
-}
-
-namespace {
-    const MapVariant kVariants[] = {
-        LOCKHASH_CUCKOO_VARIANTS
-        LOCKHASH_STRIPED_VARIANTS
-    };
-    const MapHarnessConfig kConfig = { "lockhash", kVariants, sizeof( kVariants ) / sizeof( kVariants[0] ), 3, false, false };
-}
-
-namespace cdsverif {
-    Schema const& harness_schema()
-    {
-        static Schema s = make_map_schema( kConfig,
-            { { "init", 0, 3 }, { "probe", 0, 1 }, { "thr", 0, 1 }, { "hash", 0, 5 } },
-            "two operations of different threads on the same key overlapped, at least one of them a successful update, and a pre-emptive or yielding switch occurred "
-            "(class counters resized_in_concurrent_phase / cases_resized_in_concurrent_phase report table doublings between the first worker operation and the end)" );
-        return s;
-    }
-    Verdict run_case( Case const& c )
-    {
-        fam_lockhash::oversize() = false;
-        return run_map_case( kConfig, c );
-    }
-}
+// C16 concurrent: CuckooSet/Map, intrusive CuckooSet, StripedSet/Map over std containers (lockhash_body.h, fam_lockhash.h)
+#define LOCKHASH_HARNESS_NAME "lockhash"
+#define LOCKHASH_SEQUENTIAL 0
+#include "lockhash_body.h"
